@@ -103,6 +103,6 @@ def classify(case):
 
 
 ORACLES = [
-    Oracle("reference_model", drexcase.rate_case(24, 8), check_reference, classify=classify, quick=1500, thorough=8000),
-    Oracle("compiled_vs_interpreted", drexcase.rate_case(6, 4), check_interpreted, classify=classify, quick=150, thorough=500),
+    Oracle("reference_model", drexcase.rate_case(24, 8), check_reference, classify=classify, quick=1500, thorough=20000),
+    Oracle("compiled_vs_interpreted", drexcase.rate_case(6, 4), check_interpreted, classify=classify, quick=150, thorough=1000),
 ]
